@@ -6,6 +6,7 @@ mod expr;
 mod fuzz;
 mod lex;
 mod term;
+mod tracker;
 mod util;
 
 fn main() {
@@ -20,6 +21,7 @@ fn main() {
         "expr" => expr::main(rest),
         "fuzz-expr" => fuzz::main(rest),
         "lex" => lex::main(rest),
+        "tracker" => tracker::main(rest),
         "tables" => fuzz::main_tables(rest),
         _ => {
             eprintln!("usage: recorder <expr> [options]");
